@@ -9,9 +9,14 @@
 package main
 
 import (
-	"strings"
+	"encoding/json"
 	"fmt"
 	"math"
+	"os"
+	"os/exec"
+	"path/filepath"
+	"sort"
+	"strings"
 	"time"
 
 	sio "github.com/karagenc/socket.io-go"
@@ -471,6 +476,72 @@ func scenarios(tier string) []*vx.Scenario {
 	return s
 }
 
+// runCompanion runs harness/c16r5 (plain -race build, real loopback) with the race detector logging to a file
+// and files its reports: data races whose racing access lies in repository code, and its own assertions.
+func runCompanion(tier string, r *vx.Report) {
+	bin := os.Getenv("VERIF_COMPANION_BIN")
+	if os.Getenv("VERIF_NO_COMPANION") == "1" {
+		r.CapsHit = append(r.CapsHit, "free-running part skipped (VERIF_NO_COMPANION=1)")
+		return
+	}
+	if bin == "" {
+		r.HarnessErrs = append(r.HarnessErrs, "companion binary (free-running race pass) not built: VERIF_COMPANION_BIN unset")
+		return
+	}
+	dir, err := os.MkdirTemp(filepath.Dir(bin), "racelog")
+	if err != nil {
+		r.HarnessErrs = append(r.HarnessErrs, "companion: "+err.Error())
+		return
+	}
+	defer os.RemoveAll(dir)
+	logp := filepath.Join(dir, "race")
+	cmd := exec.Command(bin, "-tier", tier)
+	cmd.Env = append(os.Environ(), "GORACE=log_path="+logp+" halt_on_error=0 history_size=2")
+	cmd.Stderr = os.Stderr
+	out, err := cmd.Output()
+	var co struct {
+		Evaluations int      `json:"evaluations"`
+		Caps        []string `json:"caps"`
+		Programs    []string `json:"programs"`
+		Violations  []struct {
+			Key string `json:"key"`
+			Msg string `json:"msg"`
+		} `json:"violations"`
+	}
+	i := strings.LastIndex(string(out), "\nRESULT ")
+	if i < 0 || json.Unmarshal(out[i+8:], &co) != nil {
+		tail := string(out)
+		if len(tail) > 2000 {
+			tail = tail[len(tail)-2000:]
+		}
+		r.HarnessErrs = append(r.HarnessErrs, fmt.Sprintf("companion failed: %v\n%s", err, tail))
+		return
+	}
+	r.Evaluations += co.Evaluations
+	r.CapsHit = append(r.CapsHit, co.Caps...)
+	for _, v := range co.Violations {
+		r.Violate("free-running: "+v.Key, v.Msg, map[string]any{"part": "free-running", "programs": co.Programs})
+	}
+	nrep := 0
+	logs, _ := filepath.Glob(logp + ".*")
+	for _, lf := range logs {
+		b, err := os.ReadFile(lf)
+		if err != nil {
+			continue
+		}
+		for _, rr := range vx.ParseRaceLog(string(b)) {
+			nrep++
+			if !vx.InRepo(rr.FA) && !vx.InRepo(rr.FB) {
+				continue
+			}
+			fs := []string{vx.CleanFunc(rr.A), vx.CleanFunc(rr.B)}
+			sort.Strings(fs)
+			r.Violate("free-running: data race: "+fs[0]+" / "+fs[1], "race detector report in a free-running program over real loopback I/O (programs: "+strings.Join(co.Programs, "; ")+"):\n"+rr.Text, map[string]any{"part": "free-running", "programs": co.Programs})
+		}
+	}
+	r.Extra["free_running"] = map[string]any{"programs": co.Programs, "race_reports_seen": nrep}
+}
+
 func main() {
 	if !vsched.RaceEnabled {
 		fmt.Println("HARNESS-ERROR property=C16 this harness must be built with -race (harness/c16/MODE = instr+race)")
@@ -481,6 +552,7 @@ func main() {
 		Level:     "model_checking",
 		Rule:      "every unordered pair (incl. an operation with itself) of operations from a 26-operation server alphabet (API calls and incoming traffic) over harness-implemented Engine.IO sockets, an 18-operation Go-client alphabet (a manager with two connected sockets; incl. the link breaking, which starts the reconnection machinery) over the in-process polling link, the same with the socket configured with Retries and AckTimeout (packet queue: 10 operations), and a 10-operation adapter alphabet (incl. a Broadcast whose argument cannot be encoded, recovered by the caller) (in-memory and session-aware) as a two-thread program, plus every server operation issued from inside an event handler, a disconnecting handler and an ack callback against two concurrent operations, and 7 client operations issued from inside the manager's error handler (failed dial, with and without reconnection), a socket's connect and disconnect handlers, an event handler and an ack callback; all schedules to the deviation bound, each judged by the race detector (reports whose racing access lies in repository code), the deadlock detector and the held-mutex check. distinct_nontrivial = deviating schedules",
 		Scenarios: scenarios,
+		Extra:     runCompanion,
 		Budget: func(tier string) time.Duration {
 			if tier == "thorough" {
 				return 20 * time.Minute
@@ -488,6 +560,7 @@ func main() {
 			return 100 * time.Second
 		},
 		Assumptions: []string{
+			"net/http and the real byte transports are outside the controlled scheduler: their share of the API (several connections made from one configuration with a user-supplied *http.Transport) runs in a separate free-running -race pass over real loopback I/O (harness/c16r5), whose reports are filed here; that pass samples schedules, it does not enumerate them",
 			"the race detector sees the true happens-before relation of every explored schedule: scheduler hand-offs are wrapped in runtime.RaceDisable and all scheduler code is //go:norace; each modelled primitive publishes its Go-memory-model edge with runtime.RaceAcquire/RaceReleaseMerge (validated by harness/racetest)",
 			"channel operations publish a slightly stronger edge than Go guarantees (acquire+release on every successful operation), which can hide a race but never invent one",
 			"programs are pairs (two threads) of single operations; 16 goroutines / random long programs of the quantifier are replaced by exhaustive small-scope enumeration",
